@@ -673,3 +673,48 @@ func peelQuirkCase(prefix string) cases.ScanCase {
 		Roots: []cases.RootSpec{{O: model.Oid{K: "c", I: 1}, Walk: false, IsRef: true, Name: "refs/heads/main", Kind: "plain"},
 			{O: model.Oid{K: "t", I: 1}, Walk: true, IsRef: false, Name: e, Kind: rootKindOf(e)}}}
 }
+
+// scaleCases: shapes that are bigger than a buffer somewhere on the way: a history whose listings pass the 4 KiB
+// flush of a bufio.Writer several times, a path 300 directories deep, 1 200 references (a for-each-ref listing beyond
+// the 64 KiB of a pipe) on three commits.
+func scaleCases(prefix string) []cases.ScanCase {
+	var out []cases.ScanCase
+	lc := largeCase(40)
+	lc.ID = prefix + "-scale-history"
+	lc.Family = "scale"
+	out = append(out, lc)
+	{
+		var g model.Graph
+		names := map[int][]byte{1: []byte("leaf.txt"), 2: []byte("d")}
+		g.Blobs = []int{12}
+		g.Trees = [][]model.Entry{{{K: "file", To: 1, N: 1, NL: 8}}}
+		for i := 1; i < 300; i++ {
+			g.Trees = append(g.Trees, []model.Entry{{K: "tree", To: i, N: 2, NL: 1}})
+		}
+		g.Commits = []model.Commit{{Tree: 300, Parents: []int{}}}
+		g.Normalize()
+		out = append(out, cases.ScanCase{ID: prefix + "-scale-deep", G: g, Names: names, Style: "full", Family: "scale",
+			Roots: []cases.RootSpec{{O: model.Oid{K: "c", I: 1}, Walk: true, IsRef: true, Name: "refs/heads/deep", Kind: "plain"}}})
+	}
+	{
+		var g model.Graph
+		names := map[int][]byte{1: []byte("f")}
+		g.Blobs = []int{5}
+		g.Trees = [][]model.Entry{{{K: "file", To: 1, N: 1, NL: 1}}}
+		g.Commits = []model.Commit{{Tree: 1, Parents: []int{}}, {Tree: 1, Parents: []int{1}}, {Tree: 1, Parents: []int{2}}}
+		g.Tags = []model.Tag{{TK: "c", To: 2}}
+		g.Normalize()
+		var roots []cases.RootSpec
+		for i := 0; i < 1200; i++ {
+			ns := []string{"heads", "tags", "remotes/origin", "misc/deeper/still"}[i%4]
+			o := model.Oid{K: "c", I: 1 + i%3}
+			if i%50 == 0 {
+				o = model.Oid{K: "g", I: 1}
+			}
+			roots = append(roots, cases.RootSpec{O: o, Walk: true, IsRef: true, Name: fmt.Sprintf("refs/%s/r%04d-with-a-rather-long-reference-name-to-fill-the-pipe", ns, i), Kind: "plain"})
+		}
+		sort.SliceStable(roots, func(i, j int) bool { return roots[i].Name < roots[j].Name })
+		out = append(out, cases.ScanCase{ID: prefix + "-scale-refs", G: g, Names: names, Style: "full", Family: "scale", Roots: roots, Layout: "packrefs"})
+	}
+	return out
+}
